@@ -77,7 +77,8 @@ def _f19(sub, r):
 
 # Repaired in /repo while this check was being built (their predicates are gone, their minimal inputs are regression examples):
 # F9 Pauli._commutes_ identity test, F16/F16b qudit X/Z controlled, F20 MatrixGate._approx_eq_ shapes, F21 Gate._commutes_ atol,
-# F22 cirq_ionq.MSGate equality ignoring theta, F23 PauliInteractionGate approximate equality values.
+# F22 cirq_ionq.MSGate equality ignoring theta, F23 PauliInteractionGate approximate equality values, F24 WaitGate equality ignoring
+# the qid shape.
 # F17 (PhasedXZGate has_stabilizer_effect false negatives) was judged out of scope: the predicate is only checked for soundness.
 KNOWN_FEATURES = {"F13_phasedxz_eq_global_phase": _f13, "F15_clifford_commutes_up_to_phase": _f15,
                   "F19_controlled_dense_pauli_identity": _f19}
